@@ -4,7 +4,7 @@
 
 From Coq Require Import ZArith Reals List Bool Lra Lia.
 From Flocq Require Import Core.
-From Rubato.Model Require Import Num Reals Base Validate Async.
+From Rubato.Model Require Import Num Reals Base Validate Nearest Kernels Async Fft Resamplers.
 From Rubato.Gen Require Import FastGen.
 From Rubato.Proofs Require Import ShapeP ValidateP EngineP StepperR MalformedP FastInR.
 Import ListNotations.
@@ -54,7 +54,7 @@ Record fo_wf (blen : Z) (s : ST) : Prop := {
   ow_t : FastFixedOut_target_ratio (as_ctl s) = oratio s;
   ow_li : - 9 < oli s <= -4;
   ow_needed : oneeded s = Zceil (oli s + IZR (oC s) * / oratio s + 8);
-  ow_fill : (0 <= ofill s <= Zceil (IZR (oC s) * / oratio s) + 4)%Z;
+  ow_fill : (0 <= ofill s /\ ofill s + 16 <= blen)%Z;          (* the frames of the last call, wherever its ratio put them *)
   ow_blen : (Zceil (IZR (oC s) * / oratio s) + 4 + 16 <= blen)%Z;
 }.
 
@@ -252,3 +252,132 @@ Proof.
 Qed.
 
 End History.
+
+(** * Histories with non-ramped ratio changes between the calls
+
+    For the fixed-output resampler a non-ramped [set_resample_ratio] recomputes needed_input_size from the carried
+    position, so EVERY accepted change is safe: the only thing the new ratio has to respect is the capacity of the
+    internal buffer, and the constructor sizes it for the smallest accepted ratio (fo_ctor_wfe_R in FastCtorR). *)
+Section Steps.
+Variable d : degree.
+Notation A := (@fo_arch CR SR d).
+Notation ST := (@astate CR SR FO).
+
+(* the buffer has room for every ratio the setter accepts *)
+Record fo_wfe (blen : Z) (s : ST) : Prop := {
+  oe_wf : fo_wf blen s;
+  oe_cap : forall r2, @fo_set_ratio_accept CR (as_ctl s) r2 = true ->
+           0 < r2 /\ (Zceil (IZR (oC s) * / r2) + 4 + 16 <= blen)%Z;
+}.
+
+Lemma fo_set_ratio_needed_R (st : FO) :
+  FastFixedOut_target_ratio st = FastFixedOut_resample_ratio st -> FastFixedOut_resample_ratio st <> 0 ->
+  @fo_set_ratio_needed CR st =
+  Z.max 0 (Zceil (FastFixedOut_last_index st + IZR (FastFixedOut_chunk_size st) * / FastFixedOut_resample_ratio st + 8)).
+Proof.
+  intros Ht H. unfold fo_set_ratio_needed, POLYNOMIAL_LEN_U. rewrite Ht.
+  set (r := FastFixedOut_resample_ratio st) in *. set (l := FastFixedOut_last_index st). set (c := FastFixedOut_chunk_size st).
+  cbv [c32_to_usize ceil32 add32 div32 mul32 lit32 to32 c32_of_Z CR c32 cnum].
+  assert (Hh : 1 / 2 * r + 1 / 2 * r = r) by field.
+  rewrite Hh. rewrite Ztrunc_IZR_id. reflexivity.
+Qed.
+
+Lemma fo_set_ratio_wfe blen (s s1 : ST) r2 :
+  fo_wfe blen s -> @fo_set_ratio CR SR s r2 false = (s1, Ok tt) ->
+  fo_wfe blen s1 /\ oratio s1 = r2 /\ oC s1 = oC s /\ oli s1 = oli s.
+Proof.
+  intros [[WC Wn Wlb Wlm Wb Wr Wt Wli Wnd Wfl Wbl] Wcap] E. unfold fo_set_ratio in E.
+  destruct (fo_set_ratio_accept (as_ctl s) r2) eqn:Ea; [|discriminate E].
+  destruct (Wcap r2 Ea) as [Hr2 Hb2].
+  injection E as <-.
+  set (st2 := set_FastFixedOut_target_ratio (set_FastFixedOut_resample_ratio (as_ctl s) r2) r2).
+  assert (Hn : @fo_set_ratio_needed CR st2 = Zceil (oli s + IZR (oC s) * / r2 + 8)).
+  { rewrite fo_set_ratio_needed_R; [| destruct s as [st ? ?]; destruct st; reflexivity | destruct s as [st ? ?]; destruct st; cbn; lra].
+    replace (FastFixedOut_last_index st2) with (oli s) by (destruct s as [st ? ?]; destruct st; reflexivity).
+    replace (FastFixedOut_chunk_size st2) with (oC s) by (destruct s as [st ? ?]; destruct st; reflexivity).
+    replace (FastFixedOut_resample_ratio st2) with r2 by (destruct s as [st ? ?]; destruct st; reflexivity).
+    apply Z.max_r.
+    assert (Ht : 0 < / r2) by (apply Rinv_0_lt_compat; exact Hr2).
+    assert (HC1 : 1 <= IZR (oC s)) by (apply IZR_le; exact WC).
+    assert (-1 < Zceil (oli s + IZR (oC s) * / r2 + 8))%Z; [|lia]. apply lt_IZR.
+    generalize (Zceil_ub (oli s + IZR (oC s) * / r2 + 8)). change (IZR (-1)) with (-1). nra. }
+  unfold oC, onch, oratio, oli, oneeded, ofill in *. fold st2. 
+  destruct s as [st bufs mask]. destruct st. cbn in *.
+  split; [|repeat split; reflexivity].
+  constructor; [constructor; cbn; try assumption; try reflexivity; try lia | cbn; exact Wcap].
+Qed.
+
+Theorem fo_call_wfe_R blen (s : ST) wi wo m :
+  fo_wfe blen s -> a_precheck A s wi wo m = Ok tt ->
+  exists (s' : ST) outs,
+    pib A s wi wo m = Ok (s', (oneeded s, oC s), outs) /\ fo_wfe blen s' /\
+    oli s' = oli s + IZR (oC s) * / oratio s - IZR (oneeded s) /\
+    oC s' = oC s /\ oratio s' = oratio s /\ (0 <= oneeded s)%Z.
+Proof.
+  intros [W Wcap] Hpre.
+  destruct (fo_call_const_R d blen s wi wo m W Hpre) as (s' & outs & E & W' & Hli & HC & Hnch & Hr & HN).
+  exists s', outs. split; [exact E|]. split; [|repeat split; assumption].
+  constructor; [exact W'|].
+  destruct (pib_ctl A s s' wi wo m _ _ E) as (last & Ec).
+  intros r2 Ha. rewrite HC. apply Wcap. rewrite <- Ha. unfold fo_set_ratio_accept. rewrite Ec.
+  destruct (as_ctl s). reflexivity.
+Qed.
+
+Inductive fo_op :=
+| FoCall (wi wo : list (list R)) (m : option (list bool))
+| FoStep (r2 : R).
+
+(* the run records, for every call, (frames consumed, frames produced, input_frames_next() and chunk_size before it) *)
+Fixpoint fo_run_ops (s : ST) (ops : list fo_op) : res (ST * list (Z * Z * Z * Z)) :=
+  match ops with
+  | [] => Ok (s, [])
+  | FoCall wi wo m :: rest =>
+      do _ <- a_precheck A s wi wo m;
+      do x <- pib A s wi wo m;
+      let '(s', (a, b), _) := x in
+      do y <- fo_run_ops s' rest;
+      let '(s'', log) := y in
+      Ok (s'', (a, b, oneeded s, oC s) :: log)
+  | FoStep r2 :: rest =>
+      match @fo_set_ratio CR SR s r2 false with
+      | (s1, Ok tt) => fo_run_ops s1 rest
+      | (_, Err e) => Err e                   (* outside [original/max, original*max]: rejected, see C12 *)
+      | (_, Panic e) => Panic e | (_, UB e) => UB e | (_, Diverge) => Diverge
+      end
+  end.
+
+Definition ocall_ok (e : Z * Z * Z * Z) : Prop :=
+  let '(a, b, nxt, c) := e in a = nxt /\ b = c /\ (0 <= a)%Z.
+
+(** Every history of well-formed calls and non-ramped ratio changes -- any the setter accepts -- runs without a panic,
+    an out-of-range access or non-termination; every call consumes exactly input_frames_next() frames and produces
+    exactly chunk_size frames. *)
+Theorem fo_history_steps_R blen : forall ops (s : ST), fo_wfe blen s ->
+  match fo_run_ops s ops with
+  | Ok (s', log) => fo_wfe blen s' /\ oC s' = oC s /\ Forall ocall_ok log
+  | Err _ => True
+  | Panic _ | UB _ | Diverge => False
+  end.
+Proof.
+  induction ops as [|[wi wo m|r2] rest IH]; intros s W; cbn [fo_run_ops].
+  - split; [exact W|]. split; [reflexivity|constructor].
+  - destruct (a_precheck A s wi wo m) as [[]| | | |] eqn:Ep; cbn [bind]; try exact I.
+    + destruct (fo_call_wfe_R blen s wi wo m W Ep) as (s' & outs & E & W' & Hli & HC & Hr & HN).
+      rewrite E. cbn [bind]. specialize (IH s' W').
+      destruct (fo_run_ops s' rest) as [[s'' log]| | | |]; cbn [bind]; try exact IH.
+      destruct IH as (W'' & HC'' & Hlog). split; [exact W''|]. split; [congruence|].
+      constructor; [cbn; repeat split; try reflexivity; exact HN | exact Hlog].
+    + destruct (a_precheck_total A s wi wo m) as [H|[e H]]; rewrite H in Ep; discriminate.
+    + destruct (a_precheck_total A s wi wo m) as [H|[e H]]; rewrite H in Ep; discriminate.
+    + destruct (a_precheck_total A s wi wo m) as [H|[e H]]; rewrite H in Ep; discriminate.
+  - destruct (@fo_set_ratio CR SR s r2 false) as [s1 o] eqn:Es.
+    assert (Ho : o = Ok tt \/ exists e, o = Err e).
+    { unfold fo_set_ratio in Es. destruct (fo_set_ratio_accept (as_ctl s) r2); injection Es as <- <-; [left; reflexivity | right; eexists; reflexivity]. }
+    destruct Ho as [-> | [e ->]]; [|exact I].
+    destruct (fo_set_ratio_wfe blen s s1 r2 W Es) as (W1 & Hr1 & HC1 & _).
+    specialize (IH s1 W1).
+    destruct (fo_run_ops s1 rest) as [[s'' log]| | | |]; try exact IH.
+    destruct IH as (W'' & HC'' & Hlog). split; [exact W''|]. split; [congruence|exact Hlog].
+Qed.
+
+End Steps.
